@@ -7,6 +7,7 @@ require github.com/github/git-sizer v0.0.0
 require (
 	github.com/cli/safeexec v1.0.0 // indirect
 	github.com/github/go-pipe v1.0.2 // indirect
+	github.com/spf13/pflag v1.0.5 // indirect
 	golang.org/x/sync v0.1.0 // indirect
 )
 
